@@ -4,6 +4,7 @@ import (
 	"encoding/json"
 	"fmt"
 	"os"
+	"sort"
 	"strconv"
 	"testing"
 	"time"
@@ -118,4 +119,29 @@ func TestEnumC18(t *testing.T) {
 	}
 	b, _ := json.Marshal(out.Probes)
 	fmt.Println(string(b))
+}
+
+// TestHashes prints "profile seed loghash" lines for the determinism self-test (run in several processes and diffed).
+func TestHashes(t *testing.T) {
+	if os.Getenv("SIM_HASHES") == "" {
+		t.Skip()
+	}
+	n, _ := strconv.Atoi(os.Getenv("SIM_N"))
+	if n == 0 {
+		n = 40
+	}
+	var names []string
+	for name := range Profiles {
+		names = append(names, name)
+	}
+	sort.Strings(names)
+	for _, name := range names {
+		for i := 0; i < n; i++ {
+			s := uint64(1000 + i)
+			plan := Profiles[name].Gen(NewTape(s))
+			plan.Seed = s
+			res := Execute(t, plan)
+			fmt.Printf("HASH %s %d %s %d %d\n", name, s, res.LogHash, len(res.Log), len(res.Violations))
+		}
+	}
 }
